@@ -99,9 +99,9 @@ theorem atoms_rep (l : List Nat) (hok : ∀ x ∈ l, atomOk x) (a : AS) (k : Lis
 
 theorem weights_rep (l : List Nat) (hok : ∀ x ∈ l, x ≤ 2147483647) (a : AS) (k : List Nat) (hr : a.rest = natsSp l ++ k) (hk : Sp k) :
     ∃ a', rep (posMax I32MAX.toNat) l.length [] a = .ok (l, a') ∧ a'.rest = k := by
+  have e : I32MAX.toNat = 2147483647 := rfl
   obtain ⟨a1, h1, r1⟩ := rep_enc (posMax I32MAX.toNat) addN (fun x => x ≤ 2147483647)
-    (fun x a k hx hr hk => posMax_addN I32MAX.toNat x (by have : I32MAX.toNat = 2147483647 := rfl
-                                                           omega) (by decide) a k hr hk) sp_addN l [] a k hok (by simpa [natsSp] using hr) hk
+    (fun x a k hx hr hk => posMax_addN I32MAX.toNat x (by rw [e]; exact hx) (by decide) a k hr hk) sp_addN l [] a k hok (by simpa [natsSp] using hr) hk
   exact ⟨a1, by simpa using h1, r1⟩
 
 theorem litOk_atom {l : Int} (h : litOk l) : atomOk l.natAbs := by unfold litOk at h; unfold atomOk; omega
@@ -123,9 +123,350 @@ theorem body_enc (b : List Int) (hl : lenOk b) (hb : ∀ l ∈ b, litOk l) (a : 
   unfold body
   simp only [h1, h2, h3, bind, Except.bind, pure, Except.pure]
   have := signed_ordered (fun (x : Int) => x) b
-  simp only at this
   unfold canonB
+  rw [List.map_id'] at this
+  exact congrArg (fun x => Except.ok (x, a3)) this
+
+theorem smLit_natAbs (p : Int × Int) : (smLit p).natAbs = p.1.natAbs := by
+  unfold smLit; split <;> simp
+
+theorem smLit_ok {p : Int × Int} (h : litOk p.1) : litOk (smLit p) := by
+  unfold litOk at *; rw [smLit_natAbs]; unfold smLit; split <;> omega
+
+theorem signed_smLit (ws : List (Int × Int)) :
+    signed (ws.filter (fun p => decide (smLit p < 0))).length ((ordered (fun p => decide (smLit p < 0)) ws).map (fun p => p.1.natAbs)) =
+    (ordered (fun p => decide (smLit p < 0)) ws).map smLit := by
+  have := signed_ordered smLit ws
   rw [← this]
-  simp
+  congr 1
+  apply List.map_congr_left
+  intro p _; exact (smLit_natAbs p).symm
+
+/-- the three leading numbers and the literal/weight lists of a weight rule or minimize statement -/
+theorem sum_enc_w (bnd : Nat) (ws : List (Int × Int)) (hb : bnd ≤ 2147483647) (hl : lenOk ws)
+    (hws : ∀ p ∈ ws, litOk p.1 ∧ p.2.natAbs ≤ 2147483647) (a : AS) (k : List Nat)
+    (hr : a.rest = addSum (bnd : Int) ws false ++ k) (hk : Sp k) :
+    ∃ a', sum true a = .ok (((bnd : Int), canonW ws), a') ∧ a'.rest = k := by
+  simp only [addSum, Bool.false_eq_true, ↓reduceIte, List.append_nil, List.nil_append, List.append_assoc, Int.toNat_natCast] at hr
+  have hneg : (ws.filter (fun p => decide (smLit p < 0))).length ≤ U32MAX := Nat.le_trans (List.length_filter_le _ _) hl
+  have hU : bnd ≤ U32MAX := by unfold U32MAX; omega
+  obtain ⟨a1, h1, r1⟩ := pos_addN bnd hU a _ hr (sp_addN _ _)
+  obtain ⟨a2, h2, r2⟩ := pos_addN ws.length hl a1 _ r1 (sp_addN _ _)
+  obtain ⟨a3, h3, r3⟩ := pos_addN _ hneg a2 _ r2 (sp_natsSp _ _ (sp_natsSp _ _ hk))
+  obtain ⟨a4, h4, r4⟩ := atoms_rep ((ordered (fun p => decide (smLit p < 0)) ws).map (fun p => p.1.natAbs))
+    (by intro x hx
+        simp only [List.mem_map] at hx
+        obtain ⟨y, hy, rfl⟩ := hx
+        exact litOk_atom (hws y (mem_ordered _ _ _ hy)).1) a3 _ r3 (sp_natsSp _ _ hk)
+  obtain ⟨a5, h5, r5⟩ := weights_rep ((ordered (fun p => decide (smLit p < 0)) ws).map (fun p => p.2.natAbs))
+    (by intro x hx
+        simp only [List.mem_map] at hx
+        obtain ⟨y, hy, rfl⟩ := hx
+        exact (hws y (mem_ordered _ _ _ hy)).2) a4 k r4 hk
+  rw [List.length_map, length_ordered] at h4 h5
+  refine ⟨a5, ?_, r5⟩
+  unfold sum
+  have hnb : ¬ (bnd > I32MAX.toNat) := by have : I32MAX.toNat = 2147483647 := rfl
+                                          omega
+  simp only [h1, h2, h3, bind, Except.bind, ↓reduceIte, hnb, h4, h5]
+  congr 3
+  rw [signed_smLit, List.map_map]
+  unfold canonW
+  rw [List.zip_map']
+  rfl
+
+theorem sum_enc_c (bnd : Nat) (ws : List (Int × Int)) (hb : bnd ≤ 2147483647) (hl : lenOk ws)
+    (hws : ∀ p ∈ ws, litOk p.1 ∧ p.2 = 1) (a : AS) (k : List Nat)
+    (hr : a.rest = addSum (bnd : Int) ws true ++ k) (hk : Sp k) :
+    ∃ a', sum false a = .ok (((bnd : Int), canonW ws), a') ∧ a'.rest = k := by
+  simp only [addSum, ↓reduceIte, List.append_nil, List.nil_append, List.append_assoc, Int.toNat_natCast] at hr
+  have hneg : (ws.filter (fun p => decide (smLit p < 0))).length ≤ U32MAX := Nat.le_trans (List.length_filter_le _ _) hl
+  have hU : bnd ≤ U32MAX := by unfold U32MAX; omega
+  obtain ⟨a1, h1, r1⟩ := pos_addN ws.length hl a _ hr (sp_addN _ _)
+  obtain ⟨a2, h2, r2⟩ := pos_addN _ hneg a1 _ r1 (sp_addN _ _)
+  obtain ⟨a3, h3, r3⟩ := pos_addN bnd hU a2 _ r2 (sp_natsSp _ _ hk)
+  obtain ⟨a4, h4, r4⟩ := atoms_rep ((ordered (fun p => decide (smLit p < 0)) ws).map (fun p => p.1.natAbs))
+    (by intro x hx
+        simp only [List.mem_map] at hx
+        obtain ⟨y, hy, rfl⟩ := hx
+        exact litOk_atom (hws y (mem_ordered _ _ _ hy)).1) a3 _ r3 hk
+  rw [List.length_map, length_ordered] at h4
+  refine ⟨a4, ?_, r4⟩
+  unfold sum
+  have hnb : ¬ (bnd > I32MAX.toNat) := by have : I32MAX.toNat = 2147483647 := rfl
+                                          omega
+  simp only [h1, h2, h3, bind, Except.bind, Bool.false_eq_true, ↓reduceIte, hnb, h4]
+  congr 3
+  rw [signed_smLit, List.map_map]
+  unfold canonW
+  apply List.map_congr_left
+  intro p hp
+  have := (hws p (mem_ordered _ _ _ hp)).2
+  simp [Function.comp, this]
+
+/-! ### the rule section: one line per call -/
+
+/-- what the smodels fragment admits in the rule section (rules, minimize statements, externals), arguments in range -/
+def RuleOk (ext : Bool) (f : Nat) : Call → Prop
+  | .rule ht head body => ht ≤ 1 ∧ (∀ a ∈ head, atomOk a) ∧ head.length ≤ 2147483647 ∧ lenOk body ∧ (∀ l ∈ body, litOk l) ∧
+      (head = [] → ht = 1 ∨ atomOk f)
+  | .sumRule ht head b ws => ht = 0 ∧ (head = [] → atomOk f) ∧ head.length ≤ 1 ∧ (∀ a ∈ head, atomOk a) ∧ (0 ≤ b ∧ b ≤ 2147483647) ∧
+      lenOk ws ∧ ∀ p ∈ ws, litOk p.1 ∧ 0 ≤ p.2 ∧ p.2 ≤ 2147483647
+  | .minimize _ ws => lenOk ws ∧ ∀ p ∈ ws, litOk p.1 ∧ p.2.natAbs ≤ 2147483647
+  | .external a v => ext = true ∧ atomOk a ∧ v ≤ 3
+  | _ => False
+
+def isCard (ws : List (Int × Int)) : Bool := ws.all (fun p => p.2 == 1)
+
+/-- the rule type number written for a call (0: nothing is written) -/
+def ruleRT : Call → Nat
+  | .rule ht head _ => if head.isEmpty then (if ht = 1 then 0 else 1) else if ht = 1 then 3 else if head.length = 1 then 1 else 8
+  | .sumRule _ _ _ ws => if isCard ws then 2 else 5
+  | .minimize _ _ => 6
+  | .external _ v => if v ≠ 3 then 91 else 92
+  | _ => 0
+
+def ruleFields (f : Nat) : Call → List Nat
+  | .rule ht head body => (if head.isEmpty then addHead ht [f] else addHead ht head) ++ addBody body
+  | .sumRule ht head b ws => addHead ht (if head.isEmpty then [f] else head) ++ addSum b ws (isCard ws)
+  | .minimize _ ws => addSum 0 ws false
+  | .external a v => if v ≠ 3 then addN a ++ addN ((v ^^^ 3) - 1) else addN a
+  | _ => []
+
+def ruleText (f : Nat) (c : Call) : List Nat := if ruleRT c = 0 then [] else printNat (ruleRT c) ++ ruleFields f c ++ nl
+
+def usesFalse : Call → Bool
+  | .rule ht head _ => head.isEmpty && ht != 1
+  | .sumRule _ head _ _ => head.isEmpty
+  | _ => false
+
+/-- what comes back for a call of the rule section; `prio` is the running minimize priority of the step -/
+def canonRule (f prio : Nat) : Call → Option Call × Nat
+  | .rule ht head body =>
+    if head.isEmpty then (if ht = 1 then (none, prio) else (some (.rule 0 [f] (canonB body)), prio))
+    else (some (.rule ht head (canonB body)), prio)
+  | .sumRule _ head b ws => (some (.sumRule 0 (if head.isEmpty then [f] else head) b (canonW ws)), prio)
+  | .minimize _ ws => (some (.minimize (prio : Int) (canonW ws)), prio + 1)
+  | .external a v => (some (.external a v), prio)
+  | _ => (none, prio)
+
+theorem str1 : str "1" = printNat 1 := by decide +kernel
+theorem str6 : str "6" = printNat 6 := by decide +kernel
+theorem str91 : str "91" = printNat 91 := by decide +kernel
+theorem str92 : str "92" = printNat 92 := by decide +kernel
+
+/-- the writer's step on a call of the rule section -/
+theorem step_rule (ext : Bool) (f : Nat) (w : W) (c : Call) (hs : w.sec = 0) (hc : RuleOk ext f c) :
+    SmodelsOut.step ext f w c = .ok ({ w with fHead := w.fHead || usesFalse c }.put (ruleText f c)) := by
+  obtain ⟨wo, wsec, wfh, winc⟩ := w
+  simp only at hs
+  subst hs
+  cases c with
+  | rule ht head body =>
+    obtain ⟨hht, _, _, _, _, hf⟩ := hc
+    cases head with
+    | nil =>
+      have hf' := hf rfl
+      by_cases h1 : ht = 1
+      · simp [SmodelsOut.step, h1, ruleText, ruleRT, usesFalse, W.put]
+      · have hfa : atomOk f := by rcases hf' with h | h; exact absurd h h1; exact h
+        have hf0 : f ≠ 0 := by unfold atomOk at hfa; omega
+        simp [SmodelsOut.step, h1, hf0, ruleText, ruleRT, ruleFields, usesFalse, W.put, str1]
+    | cons x r =>
+      by_cases h1 : ht = 1
+      · simp [SmodelsOut.step, h1, ruleText, ruleRT, ruleFields, usesFalse, W.put]
+      · cases r with
+        | nil => simp [SmodelsOut.step, h1, ruleText, ruleRT, ruleFields, usesFalse, W.put]
+        | cons y r' => simp [SmodelsOut.step, h1, ruleText, ruleRT, ruleFields, usesFalse, W.put]
+  | sumRule ht head b ws =>
+    obtain ⟨hht, hf, hlen, _, hb, _, _⟩ := hc
+    subst hht
+    have hb' : ¬ b < 0 := by omega
+    cases head with
+    | nil =>
+      have hfa := hf rfl
+      have hf0 : f ≠ 0 := by unfold atomOk at hfa; omega
+      by_cases hcard : isCard ws = true
+      · have hc' : (ws.all fun p => p.2 == 1) = true := hcard
+        simp [SmodelsOut.step, hf0, hb', ruleText, ruleRT, ruleFields, usesFalse, W.put, hcard, hc']
+      · have hc' : (ws.all fun p => p.2 == 1) = false := by simpa [isCard] using hcard
+        have hcard' : isCard ws = false := by simpa using hcard
+        simp [SmodelsOut.step, hf0, hb', ruleText, ruleRT, ruleFields, usesFalse, W.put, hcard', hc']
+    | cons x r =>
+      have hr : r = [] := by cases r with
+        | nil => rfl
+        | cons y r' => simp at hlen
+      subst hr
+      by_cases hcard : isCard ws = true
+      · have hc' : (ws.all fun p => p.2 == 1) = true := hcard
+        simp [SmodelsOut.step, hb', ruleText, ruleRT, ruleFields, usesFalse, W.put, hcard, hc']
+      · have hc' : (ws.all fun p => p.2 == 1) = false := by simpa [isCard] using hcard
+        have hcard' : isCard ws = false := by simpa using hcard
+        simp [SmodelsOut.step, hb', ruleText, ruleRT, ruleFields, usesFalse, W.put, hcard', hc']
+  | minimize p ws => simp [SmodelsOut.step, ruleText, ruleRT, ruleFields, usesFalse, W.put, str6]
+  | external a v =>
+    obtain ⟨he, _, _⟩ := hc
+    subst he
+    by_cases hv : v = 3
+    · simp [SmodelsOut.step, hv, ruleText, ruleRT, ruleFields, usesFalse, W.put, str92]
+    · simp [SmodelsOut.step, hv, ruleText, ruleRT, ruleFields, usesFalse, W.put, str91]
+  | _ => exact absurd hc (by simp [RuleOk])
+
+
+theorem ruleOf_1 (ext : Bool) (prio : Nat) (a : AS) : ruleOf ext 1 prio a = (do
+    let (h, a) ← atom a
+    let (b, a) ← body a
+    pure ((some (.rule 0 [h] b), prio), a)) := rfl
+theorem ruleOf_3 (ext : Bool) (prio : Nat) (a : AS) : ruleOf ext 3 prio a = (do
+    let (n, a) ← atom a
+    let (hd, a) ← rep atom n [] a
+    let (b, a) ← body a
+    pure ((some (.rule 1 hd b), prio), a)) := rfl
+theorem ruleOf_8 (ext : Bool) (prio : Nat) (a : AS) : ruleOf ext 8 prio a = (do
+    let (n, a) ← atom a
+    let (hd, a) ← rep atom n [] a
+    let (b, a) ← body a
+    pure ((some (.rule 0 hd b), prio), a)) := rfl
+theorem ruleOf_2 (ext : Bool) (prio : Nat) (a : AS) : ruleOf ext 2 prio a = (do
+    let (h, a) ← atom a
+    let ((bnd, wl), a) ← sum false a
+    pure ((some (.sumRule 0 [h] bnd wl), prio), a)) := rfl
+theorem ruleOf_5 (ext : Bool) (prio : Nat) (a : AS) : ruleOf ext 5 prio a = (do
+    let (h, a) ← atom a
+    let ((bnd, wl), a) ← sum true a
+    pure ((some (.sumRule 0 [h] bnd wl), prio), a)) := rfl
+theorem ruleOf_6 (ext : Bool) (prio : Nat) (a : AS) : ruleOf ext 6 prio a = (do
+    let ((_, wl), a) ← sum true a
+    pure ((some (.minimize prio wl), prio + 1), a)) := rfl
+theorem ruleOf_90 (prio : Nat) (a : AS) : ruleOf true 90 prio a = (do
+    let (z, a) ← pos a
+    if z ≠ 0 then throw a.line
+    pure ((none, prio), a)) := rfl
+theorem ruleOf_91 (prio : Nat) (a : AS) : ruleOf true 91 prio a = (do
+    let (h, a) ← atom a
+    let (v, a) ← posMax 2 a
+    pure ((some (.external h ((v ^^^ 3) - 1)), prio), a)) := rfl
+theorem ruleOf_92 (prio : Nat) (a : AS) : ruleOf true 92 prio a = (do
+    let (h, a) ← atom a
+    pure ((some (.external h 3), prio), a)) := rfl
+
+theorem natsSp_one (x : Nat) : natsSp [x] = addN x := by simp [natsSp]
+
+/-- the fields of a written rule line are read back by `ruleOf` as the canonical call -/
+theorem ruleLine_rt (ext : Bool) (f prio : Nat) (c : Call) (hc : RuleOk ext f c) (h0 : ruleRT c ≠ 0) (a : AS) (k : List Nat)
+    (hr : a.rest = ruleFields f c ++ (nl ++ k)) :
+    ∃ a', ruleOf ext (ruleRT c) prio a = .ok (canonRule f prio c, a') ∧ a'.rest = nl ++ k := by
+  cases c with
+  | rule ht head body =>
+    obtain ⟨hht, hh, hhl, hlb, hb, hf⟩ := hc
+    cases head with
+    | nil =>
+      by_cases h1 : ht = 1
+      · simp [ruleRT, h1] at h0
+      · have hfa : atomOk f := by rcases hf rfl with h | h; exact absurd h h1; exact h
+        simp only [ruleFields, List.isEmpty_nil, ↓reduceIte, addHead, h1, List.length_cons, List.length_nil, Nat.zero_add, gt_iff_lt,
+          Nat.lt_irrefl, or_self, List.nil_append, natsSp_one, List.append_assoc] at hr
+        obtain ⟨a1, e1, r1⟩ := atom_addN f hfa a _ hr (by unfold addBody; simp only [List.append_assoc]; exact sp_addN _ _)
+        obtain ⟨a2, e2, r2⟩ := body_enc body hlb hb a1 _ r1 (sp_nl _)
+        refine ⟨a2, ?_, r2⟩
+        simp only [ruleRT, List.isEmpty_nil, ↓reduceIte, h1, canonRule]
+        rw [ruleOf_1]
+        simp only [e1, e2, bind, Except.bind, pure, Except.pure]
+    | cons x r =>
+      by_cases h1 : ht = 1
+      · subst h1
+        simp only [ruleFields, List.isEmpty_cons, Bool.false_eq_true, ↓reduceIte, addHead, true_or, List.append_assoc] at hr
+        obtain ⟨a1, e1, r1⟩ := atom_addN (x :: r).length ⟨by simp, hhl⟩ a _ hr (sp_natsSp _ _ (by unfold addBody; simp only [List.append_assoc]; exact sp_addN _ _))
+        obtain ⟨a2, e2, r2⟩ := atoms_rep (x :: r) hh a1 _ r1 (by unfold addBody; simp only [List.append_assoc]; exact sp_addN _ _)
+        obtain ⟨a3, e3, r3⟩ := body_enc body hlb hb a2 _ r2 (sp_nl _)
+        refine ⟨a3, ?_, r3⟩
+        simp only [ruleRT, List.isEmpty_cons, Bool.false_eq_true, ↓reduceIte, canonRule]
+        rw [ruleOf_3]
+        simp only [e1, e2, e3, bind, Except.bind, pure, Except.pure]
+      · have ht0 : ht = 0 := by omega
+        subst ht0
+        cases r with
+        | nil =>
+          simp only [ruleFields, List.isEmpty_cons, Bool.false_eq_true, ↓reduceIte, addHead, List.length_cons, List.length_nil, Nat.zero_add,
+            gt_iff_lt, Nat.lt_irrefl, or_self, List.nil_append, natsSp_one, List.append_assoc, Nat.zero_ne_one] at hr
+          obtain ⟨a1, e1, r1⟩ := atom_addN x (hh x (by simp)) a _ hr (by unfold addBody; simp only [List.append_assoc]; exact sp_addN _ _)
+          obtain ⟨a2, e2, r2⟩ := body_enc body hlb hb a1 _ r1 (sp_nl _)
+          refine ⟨a2, ?_, r2⟩
+          simp only [ruleRT, List.isEmpty_cons, Bool.false_eq_true, ↓reduceIte, Nat.zero_ne_one, List.length_cons, List.length_nil, Nat.zero_add, canonRule]
+          rw [ruleOf_1]
+          simp only [e1, e2, bind, Except.bind, pure, Except.pure]
+        | cons y r' =>
+          have hgt : (x :: y :: r').length > 1 := by simp
+          simp only [ruleFields, List.isEmpty_cons, Bool.false_eq_true, ↓reduceIte, addHead, hgt, or_true, List.append_assoc] at hr
+          obtain ⟨a1, e1, r1⟩ := atom_addN (x :: y :: r').length ⟨by simp, hhl⟩ a _ hr (sp_natsSp _ _ (by unfold addBody; simp only [List.append_assoc]; exact sp_addN _ _))
+          obtain ⟨a2, e2, r2⟩ := atoms_rep (x :: y :: r') hh a1 _ r1 (by unfold addBody; simp only [List.append_assoc]; exact sp_addN _ _)
+          obtain ⟨a3, e3, r3⟩ := body_enc body hlb hb a2 _ r2 (sp_nl _)
+          refine ⟨a3, ?_, r3⟩
+          have hne : ¬ ((x :: y :: r').length = 1) := by simp
+          simp only [ruleRT, List.isEmpty_cons, Bool.false_eq_true, ↓reduceIte, Nat.zero_ne_one, hne, canonRule]
+          rw [ruleOf_8]
+          simp only [e1, e2, e3, bind, Except.bind, pure, Except.pure]
+  | sumRule ht head b ws =>
+    obtain ⟨hht, hf, hlen, hh, hb, hlw, hws⟩ := hc
+    subst hht
+    have hbn : ((b.toNat : Nat) : Int) = b := by omega
+    -- the (single) head atom
+    obtain ⟨h, hh1, hok⟩ : ∃ h, (if head.isEmpty then [f] else head) = [h] ∧ atomOk h := by
+      cases head with
+      | nil => exact ⟨f, rfl, hf rfl⟩
+      | cons x r =>
+        cases r with
+        | nil => exact ⟨x, rfl, hh x (by simp)⟩
+        | cons y r' => simp at hlen
+    have hhd : addHead 0 (if head.isEmpty then [f] else head) = addN h := by rw [hh1]; simp [addHead, natsSp]
+    simp only [ruleFields, hhd, List.append_assoc] at hr
+    by_cases hcard : isCard ws = true
+    · rw [hcard, ← hbn] at hr
+      obtain ⟨a1, e1, r1⟩ := atom_addN h hok a _ hr (by
+        simp only [addSum, ↓reduceIte, List.nil_append, List.append_assoc]; exact sp_addN _ _)
+      obtain ⟨a2, e2, r2⟩ := sum_enc_c b.toNat ws (by omega) hlw (fun p hp => ⟨(hws p hp).1, by
+        have := List.all_eq_true.mp hcard p hp; simpa using this⟩) a1 _ r1 (sp_nl _)
+      refine ⟨a2, ?_, r2⟩
+      simp only [ruleRT, hcard, ↓reduceIte, canonRule, hh1]
+      rw [ruleOf_2]
+      simp only [e1, e2, bind, Except.bind, pure, Except.pure, hbn]
+    · have hcard' : isCard ws = false := by simpa using hcard
+      rw [hcard', ← hbn] at hr
+      obtain ⟨a1, e1, r1⟩ := atom_addN h hok a _ hr (by
+        simp only [addSum, Bool.false_eq_true, ↓reduceIte, List.append_assoc]; exact sp_addN _ _)
+      obtain ⟨a2, e2, r2⟩ := sum_enc_w b.toNat ws (by omega) hlw (fun p hp => ⟨(hws p hp).1, by have := (hws p hp).2; omega⟩) a1 _ r1 (sp_nl _)
+      refine ⟨a2, ?_, r2⟩
+      simp only [ruleRT, hcard', Bool.false_eq_true, ↓reduceIte, canonRule, hh1]
+      rw [ruleOf_5]
+      simp only [e1, e2, bind, Except.bind, pure, Except.pure, hbn]
+  | minimize p ws =>
+    obtain ⟨hlw, hws⟩ := hc
+    simp only [ruleFields] at hr
+    obtain ⟨a1, e1, r1⟩ := sum_enc_w 0 ws (by omega) hlw hws a _ (by simpa using hr) (sp_nl _)
+    refine ⟨a1, ?_, r1⟩
+    simp only [ruleRT, canonRule]
+    rw [ruleOf_6]
+    simp only [e1, bind, Except.bind, pure, Except.pure]
+  | external x v =>
+    obtain ⟨he, hx, hv⟩ := hc
+    subst he
+    by_cases hv3 : v = 3
+    · subst hv3
+      simp only [ruleFields, ne_eq, not_true_eq_false, ↓reduceIte] at hr
+      obtain ⟨a1, e1, r1⟩ := atom_addN x hx a _ hr (sp_nl _)
+      refine ⟨a1, ?_, r1⟩
+      simp only [ruleRT, ne_eq, not_true_eq_false, ↓reduceIte, canonRule]
+      rw [ruleOf_92]
+      simp only [e1, bind, Except.bind, pure, Except.pure]
+    · have hv' : v = 0 ∨ v = 1 ∨ v = 2 := by omega
+      simp only [ruleFields, ne_eq, hv3, not_false_eq_true, ↓reduceIte, List.append_assoc] at hr
+      obtain ⟨a1, e1, r1⟩ := atom_addN x hx a _ hr (sp_addN _ _)
+      obtain ⟨a2, e2, r2⟩ := posMax_addN 2 ((v ^^^ 3) - 1) (by rcases hv' with rfl | rfl | rfl <;> decide) (by decide) a1 _ r1 (sp_nl _)
+      refine ⟨a2, ?_, r2⟩
+      simp only [ruleRT, ne_eq, hv3, not_false_eq_true, ↓reduceIte, canonRule]
+      have hvv : ((v ^^^ 3) - 1 ^^^ 3) - 1 = v := by rcases hv' with rfl | rfl | rfl <;> decide
+      rw [ruleOf_91]
+      simp only [e1, e2, bind, Except.bind, pure, Except.pure, hvv]
+  | _ => exact absurd hc (by simp [RuleOk])
 
 end PotasscoVerif.SmRT
